@@ -432,17 +432,23 @@ def run(prog, rep, tier):
     rpt = [c for c in pushes if c.bb in fb.reachable_after(c.bb)]
     if not rpt:
         raise CheckerError("find_sysline_year: no repeatable Sysline::push (continuation-line idiom not recognised)")
+    # tests of the store of known message starts: any lookup on self.syslines / self.syslines_by_range
+    # (contains_key, get(..).is_some(), range(..)) whose result controls a branch
     cks = []
+    LOOKUPS = ("contains_key", "get", "get_key_value", "contains", "range", "get_mut", "first_key_value", "overlaps")
     for c in fb.live_calls():
-        if c.d.endswith("::contains_key") and c.args and c.target is not None:
+        if c.d.split("::")[-1] in LOOKUPS and c.args:
             o = fb.origins(c.args[0], through_calls=("::deref",))
             if any(x[0] == "arg" and x[1] == 1 and ("syslines" in x[-1] or "syslines_by_range" in x[-1]) for x in o):
-                t = fb.term(c.target)
-                if t[0] == "switch" and op_local(t[1]) == c.dest[0]:
-                    arms = {int(v): tb for v, tb in t[2]}
-                    false_t = arms.get(0) if 0 in arms else None
-                    if false_t is not None:
-                        cks.append((c, false_t))
+                # the switch it controls (directly, or through is_some/is_none/not)
+                for sw in sorted(fb.live):
+                    t = fb.term(sw)
+                    if t[0] != "switch":
+                        continue
+                    so = fb.origins(t[1], through_calls=("::is_some", "::is_none", "::not", "::is_ok", "::is_err"))
+                    if any(x[0] == "call" and x[1] == c.bb for x in so) or (op_local(t[1]) == c.dest[0]):
+                        for tgt in set(fb.succ[sw]):
+                            cks.append((c, tgt))
     for c in rpt:
         guarded = [k for k, ft in cks if fb.dominates(ft, c.bb) and k.bb in fb.reachable_after(c.bb)]
         inst = "%s|continuation-push" % fb.path
